@@ -4,6 +4,7 @@
 -/
 import Driver.Proto
 import Driver.Ops
+import Driver.LoadFile
 
 open Swiftness Swiftness.Proto
 
@@ -11,7 +12,11 @@ partial def loop (h : IO.FS.Stream) (out : IO.FS.Stream) (f : String → String)
   let line ← h.getLine
   if line.isEmpty then return ()
   let l := line.trimAscii.toString
-  if l.isEmpty || l.startsWith "#" then out.putStrLn l else out.putStrLn (f l)
+  if l.isEmpty || l.startsWith "#" then out.putStrLn l
+  else if l.startsWith "parsefile " then
+    -- the independent Lean loader answers the same op the real parser + CLI conversion answers in `hx`
+    out.putStrLn (← Swiftness.Driver.loadFileLine (l.drop 10).toString)
+  else out.putStrLn (f l)
   loop h out f
 
 def loadLayout (dir : String) (name : String) : IO (Option Driver.LayoutProgs) := do
